@@ -133,6 +133,9 @@ func mUnmarshal(data []byte, v any) error {
 	if jsForce0 && lastLineIdx == 0 { // the first of two lines is text
 		return errors.New("json: syntax error")
 	}
+	if jsAllText { // a run whose lines are all text
+		return errors.New("json: syntax error")
+	}
 	if !jsPlanned {
 		planJSON(string(data))
 	}
@@ -344,6 +347,50 @@ func harnessC10two() {
 }
 
 var jsForce0 bool
+var jsAllText bool
 var lastLineIdx int
+
+func plainText(tag string) string {
+	s := vNondetStr(tag, "\n")
+	vAssume(len(s) <= 100)
+	vAssume(!vPrefix(s, "[TRACE]") && !vPrefix(s, "[DEBUG]") && !vPrefix(s, "[INFO]") && !vPrefix(s, "[WARN]") && !vPrefix(s, "[ERROR]") && !vPrefix(s, "panic:"))
+	return s
+}
+
+// harnessC10trace: a panic trace of several lines. After a "panic:" line every following unprefixed text line is logged
+// at error - the first, the second and the third alike - until a line with a level prefix (or JSON) ends the trace;
+// the unprefixed line after that is back at debug.
+func harnessC10trace() {
+	t0, t1, t2, t3, t4 := vNondetStr("t0", "\n"), plainText("t1"), plainText("t2"), plainText("t3"), plainText("t4")
+	vAssume(len(t0) <= 100)
+	lines := []string{"panic: " + t0, t1, t2, t3, "[INFO] back to normal", t4}
+	src := &lineSrc{lines: lines, term: []int{0, 0, vChoice(2), 0, 0, 0}}
+	w := &vWriter{}
+	var recs []logRec
+	cfg := &ClientConfig{Stderr: w, Logger: vLogger{&recs}, PluginLogBufferSize: 4096}
+	c := &Client{config: cfg, logger: cfg.Logger}
+	c.clientWaitGroup.Add(1)
+	c.pipesWaitGroup.Add(1)
+	jsAllText = true
+	panicked := true
+	func() {
+		defer func() { recover() }()
+		c.logStderr("plugin", &vPipe{src})
+		panicked = false
+	}()
+	vAssert(!panicked, "C10: no stderr content makes the host panic")
+	vAssert(len(recs) == 6, "C10: a log record is emitted for every line")
+	want := []string{"error", "error", "error", "error", "info", "debug"}
+	for i, r := range recs {
+		vAssert(r.msg == lines[i], "C10: every line of a panic trace is logged verbatim, in order")
+		if i >= 1 && i <= 3 {
+			vAssert(r.level == "error", "C10: text inside a panic trace is logged at error (every line of the trace, not only the first)")
+		} else {
+			vAssert(r.level == want[i], "C10: a panic line is logged at error, a prefixed line at its level, and text after the trace ended falls back to debug")
+		}
+	}
+	vCover("trace-done")
+	vDone()
+}
 
 func vPrefix(s, p string) bool { return len(s) >= len(p) && strings.HasPrefix(s, p) }
